@@ -21,7 +21,7 @@ ID = "C02"
 LEVEL = "model_checking"
 RULE = (
     "(a) all tables of CT(2,2,2) and CT(3,2,1) (thorough: + CT(2,3,1), CT(2,2,3), G1(5,2) x 81 with ASSD matching) x UNMATCHED x {one-to-one threshold matcher: every IoU "
-    "threshold class without decision + the most lenient class x decision in {none, Dice .5, ASSD .5, IoU at every class}; many-to-one and merge matcher at the most lenient and the "
+    "threshold class without decision + the most lenient class x decision in {none, Dice .5, ASSD .5, ASSD 0, IoU at every class}; many-to-one and merge matcher at the most lenient and the "
     "median class x decision in {none, Dice .5, ASSD .5}} and x MATCHED x the same decisions; SEMANTIC on G2(2,2,2) x 27 refs x {default, cc3d} x 4 threshold classes x 3 decisions; "
     "(b) all PanopticaResult(num_ref, num_pred in 0..4, tp <= min, lists of length tp over {0,.25,.5,1} / {0,.5,2}) x 5 empty-list-std values. "
     "non-trivial = at least one instance fails the decision threshold, or a many-to-one/merge assignment merged a group, or a direct result with >= 2 distinct values; distinct by (arrays, configuration)"
@@ -164,7 +164,7 @@ def _configs(kind, pred, ref, acc):
     mdl = e2e.Model(pred, ref, "UNMATCHED")
     mmetric = "ASSD" if kind == "geo" else "IOU"
     thrs = e2e.guarded_thresholds(mdl, mmetric, mdl.rp.cands, acc, shape) or [0.5]
-    decs = [None, ["DSC", 0.5], ["ASSD", 0.5]] + [["IOU", t] for t in e2e.guarded_thresholds(mdl, "IOU", mdl.rp.cands, acc, shape)]
+    decs = [None, ["DSC", 0.5], ["ASSD", 0.5], ["ASSD", 0.0]] + [["IOU", t] for t in e2e.guarded_thresholds(mdl, "IOU", mdl.rp.cands, acc, shape)]
     mid = {thrs[0], thrs[len(thrs) // 2]}
     for t in thrs:
         for m in (["thr", mmetric, t, False], ["thr", mmetric, t, True], ["merge", mmetric, t]):
@@ -172,12 +172,12 @@ def _configs(kind, pred, ref, acc):
             if o2o:
                 ds = decs if t == thrs[0] else decs[:1]
             else:
-                ds = decs[:3] if t in mid else []
+                ds = decs[:4] if t in mid else []
             for dec in ds:
                 out.append({"itype": "UNMATCHED", "matcher": m, "backend": "none", "decision": dec})
     mm = e2e.Model(pred, ref, "MATCHED")
     asg = sorted(mm.matched_assignment())
-    for dec in [None, ["DSC", 0.5], ["ASSD", 0.5]] + [["IOU", t] for t in e2e.guarded_thresholds(mm, "IOU", asg, acc, shape)]:
+    for dec in [None, ["DSC", 0.5], ["ASSD", 0.5], ["ASSD", 0.0], ["DSC", 1.0]] + [["IOU", t] for t in e2e.guarded_thresholds(mm, "IOU", asg, acc, shape)]:
         out.append({"itype": "MATCHED", "matcher": None, "backend": "none", "decision": dec})
     return out
 
@@ -216,6 +216,15 @@ def _pipeline(acc, case, pred, ref, cfg):
             ok = False
         if not one_to_one and nlab < mdl.n_pred:
             acc.nontriv("merged", pred.tobytes(), ref.tobytes(), repr(cfg))
+    # no true positive may fail the decision threshold (values 1e-9 away from the threshold are not judged)
+    if cfg["decision"] is not None:
+        dm, dt = cfg["decision"]
+        lst = obs.get("list_" + dm)
+        if isinstance(lst, list):
+            bad = [v for v in lst if not rm.beats(dm, v, dt) and not rm.close(v, dt)]
+            if bad:
+                acc.violation(f"C02:tp_fails_decision:{dm}", c2, f"{tag}: per-TP {dm} values {lst} contain {bad}, which do not meet the decision threshold {dt}")
+                ok = False
     # an instance failing the decision threshold is a false positive and a false negative
     if cfg["decision"] is not None and mp is not None:
         rarr = np.asarray(steps._intermediatesteps["MATCHED_INSTANCE"].reference_arr)
